@@ -555,6 +555,16 @@ def _splitting(pool, s):
 def _tdvp(pool, s):
     H, x0 = get_herm(pool, s), get_vec(pool, s)
     k = s['k'] % 4
+    if k != 3:
+        # TDVP's domain (see C11): a right-orthonormal, normalised state. A pooled vector of norm 1e4 with generic cores gives
+        # effective operators of norm 1e8 and scipy's expm_multiply then needs minutes. The orthonormalised copy is pooled and
+        # is the argument that has to stay unchanged.
+        t = x0['t'].copy().ortho_right()
+        nrm = np.linalg.norm(t.cores[0])
+        if not np.isfinite(nrm) or nrm == 0:
+            return None
+        t.cores[0] = t.cores[0] / nrm
+        x0 = pool.add(t, kind='vec', derived=True, tag='orthonormalised')
     if k == 0:
         sol = ode.tdvp1site(H['t'], x0['t'], 0.1, 1 + s['j'] % 2)
     elif k == 1:
